@@ -28,6 +28,11 @@ func (vc *VC) smtFor(o *Obligation, withModel bool) string {
 	for _, s := range vc.script[:o.Prefix] {
 		b.WriteString(s + "\n")
 	}
+	if !o.ExpectSat {
+		for _, s := range preInstantiate(vc.script[:o.Prefix], o.Goal.S+" "+o.Reach.S, 10, 400) {
+			b.WriteString(s + "\n")
+		}
+	}
 	b.WriteString("(assert " + o.Reach.S + ")\n")
 	if o.Known != nil {
 		// known finding: the obligation is proved outside its recorded input condition
